@@ -127,6 +127,25 @@ def _callee_name(n):
     return unwrap(n['inner'][0]).get('referencedDecl', {}).get('name')
 
 
+def _callee_param_alternatives(n):
+    """alternatives of the variant a std:: accessor (holds_alternative / get_if) was instantiated for, read from the
+    callee's function type `R (const variant<...> &|*) noexcept` (used when the argument's type is an undesugared alias)"""
+    ft = unwrap(n['inner'][0]).get('referencedDecl', {}).get('type', {}).get('qualType', '')
+    i = ft.find('(')
+    if i < 0:
+        return None
+    depth, j = 0, i
+    for j in range(i, len(ft)):
+        if ft[j] in '(<':
+            depth += 1
+        elif ft[j] in ')>':
+            depth -= 1
+            if depth == 0 and ft[j] == ')':
+                break
+    args = split_top(ft[i + 1:j])
+    return variant_alternatives(args[0]) if len(args) == 1 else None
+
+
 def variant_expr_hook():
     """std::holds_alternative<T>(v) -> (v.index == k);  std::get_if<T>(&v) -> (v.index == k ? &v.a<k> : NULL);
     variant{alternative value} (converting constructor, argument type exactly an alternative) -> {.index = k, .a<k> = e}"""
@@ -138,7 +157,7 @@ def variant_expr_hook():
             nm = _callee_name(n)
             if nm == 'holds_alternative' and len(n['inner']) == 2:
                 arg = n['inner'][1]
-                alts = variant_alternatives(arg['type'])
+                alts = variant_alternatives(arg['type']) or _callee_param_alternatives(n)
                 if alts is None:
                     raise Unsupported('holds_alternative on a non-variant')
                 src = astload.node_source(n['inner'][0]) or ''
@@ -150,13 +169,22 @@ def variant_expr_hook():
                 return f'({P.expr(arg)}.index == {idx})'
             if nm == 'get_if' and len(n['inner']) == 2:
                 arg = n['inner'][1]
-                alts = variant_alternatives(arg['type'])
+                alts = variant_alternatives(arg['type']) or _callee_param_alternatives(n)
                 if alts is None:
                     raise Unsupported('get_if on a non-variant')
-                rt = strip_cv(qual(n['type']))
-                if not rt.endswith('*'):
-                    raise Unsupported(f'get_if: result type {rt!r} is not a pointer')
-                idx = _alt_exact(alts, rt[:-1], 'get_if')
+                # the alternative asked for is the pointee of the result type (several spellings of it are around)
+                ft = unwrap(n['inner'][0]).get('referencedDecl', {}).get('type', {}).get('qualType', '')
+                cands = [n['type'].get('desugaredQualType', ''), n['type'].get('qualType', ''), ft[:ft.find('(')] if '(' in ft else '']
+                found = set()
+                for rt in cands:
+                    rt = strip_cv(rt)
+                    m = re.match(r'^(?:std::)?add_pointer_t<(.*)>$', rt, re.S)
+                    pointee = m.group(1) if m else (rt[:-1] if rt.endswith('*') else None)
+                    if pointee is not None:
+                        found |= {i for i, a in enumerate(alts) if a == _norm(pointee)}
+                if len(found) != 1:
+                    raise Unsupported(f'get_if: result type {cands!r} does not name exactly one alternative')
+                idx = found.pop()
                 P.note(f'get_if<{alts[idx]}> -> index == {idx} ? &a{idx} : NULL')
                 v = P.expr(arg)
                 return f'({v}->index == {idx} ? &{v}->a{idx} : NULL)'
